@@ -90,6 +90,11 @@ package state
 //@   ensures result == nil ==> forall c string :: (c != t.ClientID ==> $out[c] == old($out[c])) && (c != t.ToClientID ==> $in[c] == old($in[c]))
 //@   ensures result != nil ==> $ntr == old($ntr) && (forall c string :: $out[c] == old($out[c]) && $in[c] == old($in[c]))
 
+// queues a signed transfer (validated and applied by the chain after the contract returns)
+//@ iface 0chain.net/chaincore/chain/state.StateContextI.AddSignedTransfer
+//@   params self st
+//@   pure
+
 //@ iface 0chain.net/chaincore/chain/state.CommonStateContextI.InsertTrieNode
 //@   params self key v
 //@   modifies $saved, $nsaved, $deleted
